@@ -392,6 +392,8 @@ class Evaluator:
             return st.mhas(cont.t, self.eng.map_key(cont, x), cont.kk)
         if isinstance(cont, VRef):
             return self.eng.map_contains(st, cont, x)
+        if isinstance(cont, VAny) and isinstance(x, VStr):
+            return z3.Function('$in_opaque', I, S, B)(cont.t, x.t)      # an opaque container of strings: membership is uninterpreted
         raise OutOfSubset('membership in %s' % kind_of(cont))
 
     def ev_Attribute(self, st, e):
